@@ -126,6 +126,9 @@ func DefStandardClass(s *slip.Scope, name string, supers, slotSpecs, classOption
 	}
 	for i, super := range supers {
 		if sym, ok := super.(slip.Symbol); ok {
+			if strings.EqualFold(string(sym), name) {
+				slip.ErrorPanic(s, depth, "class %s can not be a superclass of itself.", name)
+			}
 			sc.supers[i] = sym
 		} else {
 			slip.TypePanic(s, depth, "super", super, "symbol")
